@@ -4,7 +4,7 @@
 (* One line per case: B|{els, ac}.                                            *)
 EXTENDS Integers, Sequences, FiniteSets, TLC, SMGJson
 CONSTANTS NAt, SampleMod
-ElPool == <<1, 6, 7, 8, 16, 9, 78, 15, 17>>
+ElPool == <<1, 6, 7, 8, 16, 9, 78, 15, 17, 11, 26>>     \* incl. two elements without valence data (Na, Fe)
 Pairs == { <<i, j>> \in (1..NAt) \X (1..NAt) : i < j }
 VARIABLES B, e
 vars == <<B, e>>
